@@ -203,8 +203,10 @@ def ctor_siblings(res: CheckResult, prog: Program, classify=None):
                     details.append(f'MosFile.{n} parses with ElementTree.{name}, expected ElementTree.{prim}')
                 if kw:
                     details.append(f'MosFile.{n} passes {list(kw)} to the parser: the document is not read the default way')
-                if len(args) != 1 or argmark not in str(args[0]) or (n != 'from_s3' and not str(args[0]).startswith('argument.')):
-                    details.append(f'MosFile.{n} parses {list(args)}: not its own argument unchanged')
+                import re as _re
+                exact = _re.fullmatch(r'argument\.\w+', str(args[0])) if n != 'from_s3' else _re.fullmatch(r'<result:.*\.read>', str(args[0]))
+                if len(args) != 1 or not exact:
+                    details.append(f'MosFile.{n} parses {list(args)}: not its own argument (the downloaded body for S3) unchanged')
             if not ps:
                 details.append(f'MosFile.{n} never reaches a parse primitive')
         ok = not details
